@@ -97,11 +97,14 @@ pub struct PeerSpec {
     /// which message the peer's / stray ERROR packets carry (0 = short ASCII; others = long, multi-byte characters
     /// at different alignments)
     pub error_text: u8,
+    /// Rx peer: old duplicates of blocks it already holds are ignored instead of acknowledged again (what windowed
+    /// clients do; with duplicate-packets mode and large windows every re-ACK would repeat a whole window)
+    pub quiet_dups: bool,
 }
 
 impl PeerSpec {
     pub fn conformant(timer_ns: u64) -> PeerSpec {
-        PeerSpec { ack_every: 0, timer_ns, retries: 12, dally: false, silent_from: None, error_at: None, error_text: 0 }
+        PeerSpec { ack_every: 0, timer_ns, retries: 12, dally: false, silent_from: None, error_at: None, error_text: 0, quiet_dups: false }
     }
     pub fn is_plain(&self) -> bool {
         self.silent_from.is_none() && self.error_at.is_none()
